@@ -1,6 +1,7 @@
 """C03 (round 2, tag c03c): every place where a parameter NAME becomes a POSITION, or a value is stored / read
 by position, in biogeme.py and results.py."""
 from pyvc.contract import contract, field_type
+from contracts import c03c_replays as RP
 
 BG = 'biogeme.biogeme.BIOGEME'
 EX = 'biogeme.expressions.base_expressions.Expression'
@@ -20,7 +21,7 @@ contract(EX + '.change_init_values', 'C03', verify=False, types={'betas': 'dict[
 _NAMES = 'self.id_manager.free_betas.names'
 _VALS = 'self.id_manager.free_betas_values'
 
-contract(BG + '.change_init_values', 'C03',
+contract(BG + '.change_init_values', 'C03', replay=RP.CHANGE_INIT,
          types={'betas': 'dict[str, float]'},
          requires={'one_value_per_name': f'len({_VALS}) == len({_NAMES})',
                    'distinct_lists': f'{_VALS} is not {_NAMES}'},
@@ -32,6 +33,7 @@ contract(BG + '.change_init_values', 'C03',
              'unnamed_position_unchanged':
                  f'forall(lambda q: implies({_NAMES}[q] not in betas, {_VALS}[q] == old({_VALS}[q])), 0, len({_NAMES}))',
              'names_unchanged': f'seq_eq({_NAMES}, old({_NAMES}))',
+             'no_other_list_touched': f'c03c_only_list_changed(old({_VALS}))',
          },
          invariants={1: {'clauses': {}},
                      2: {'clauses': {
@@ -39,6 +41,7 @@ contract(BG + '.change_init_values', 'C03',
                          'done_unnamed': f'forall(lambda q: implies({_NAMES}[q] not in betas, {_VALS}[q] == old({_VALS}[q])), 0, _k)',
                          'todo': f'forall(lambda q: {_VALS}[q] == old({_VALS}[q]), _k, len({_NAMES}))',
                          'length': f'len({_VALS}) == old(len({_VALS}))',
+                         'other_lists': f'c03c_only_list_changed(old({_VALS}))',
                      }}})
 
 # ----------------------------------------------------------------------------------------------------------
@@ -52,7 +55,7 @@ field_type('biogeme.results.Beta', 'value', 'float')
 field_type('bioResults', 'data', 'RawResults')
 
 _MN = 'the_model.id_manager.free_betas.names'
-contract(RS + 'RawResults.__init__', 'C03',
+contract(RS + 'RawResults.__init__', 'C03', replay=RP.RESULTS,
          types={'the_model': 'BIOGEME', 'beta_values': 'list[float]', 'f_g_h_b': 'Any', 'bootstrap': 'Any'},
          requires={'one_value_per_name': f'len(beta_values) == len({_MN})',
                    'bounds_len': f'len(the_model.id_manager.bounds) == len({_MN})',
@@ -78,7 +81,7 @@ contract(RS + 'RawResults.__init__', 'C03',
                        'same(self.betas[q].ub, typed(the_model.id_manager.bounds[q], "tuple[Any, Any]")[1]), 0, _k)'}}})
 
 _BN = 'self.data.betaNames'
-contract(RS + 'bioResults.get_beta_values', 'C03',
+contract(RS + 'bioResults.get_beta_values', 'C03', replay=RP.RESULTS,
          types={'my_betas': 'list[str] | None'}, returns='dict[str, float]',
          requires={'one_entry_per_name': f'len(self.data.betas) == len({_BN})',
                    'entry_q_carries_name_q': f'forall(lambda q: self.data.betas[q].name == {_BN}[q], 0, len({_BN}))',
@@ -96,3 +99,35 @@ contract(RS + 'bioResults.get_beta_values', 'C03',
              'seen': "forall(lambda q: my_betas[q] in values, 0, _k)",
              'by_name': f"forall(lambda q: implies({_BN}[q] in values, values[{_BN}[q]] == self.data.betas[q].value), 0, len({_BN}))",
              'known': f"forall(lambda x: implies(x in values, exists(lambda q: {_BN}[q] == x, 0, len({_BN}))), ty='str')"}}})
+
+# ----------------------------------------------------------------------------------------------------------
+# the names reported by the estimation object are the sorted names of the id manager (same object: no copy that could be re-ordered)
+contract(BG + '.free_beta_names', 'C03', replay=RP.RESULTS, modifies=[], returns='list[str]',
+         ensures={'the_sorted_names': 'result is self.id_manager.free_betas.names'})
+contract(BG + '.number_unknown_parameters', 'C03', modifies=[],
+         ensures={'count_of_names': 'result == len(self.id_manager.free_betas.names)'})
+
+# ----------------------------------------------------------------------------------------------------------
+# restart from the saved-iteration file: the values read from the file are assigned BY NAME
+_F = 'self._save_iterations_file_name()'
+_L = f'c03c_file_lines({_F})'
+_HAS = f'exists(lambda j: c03c_line_name({_L}[j]) == {_NAMES}[q], 0, len({_L}))'
+contract(BG + '._load_saved_iteration', 'C03', replay=RP.LOAD_ITER,
+         requires={'one_value_per_name': f'len({_VALS}) == len({_NAMES})',
+                   'distinct_lists': f'{_VALS} is not {_NAMES}'},
+         modifies=['*.initValue', '*.$elems'], may_raise=['ValueError'],
+         ensures={
+             'length_kept': f'len({_VALS}) == old(len({_VALS}))',
+             'names_unchanged': f'seq_eq({_NAMES}, old({_NAMES}))',
+             'no_other_list_touched': f'c03c_only_list_changed(old({_VALS}))',
+             'unreadable_file_changes_nothing': f'implies(not c03c_file_readable({_F}), forall(lambda q: {_VALS}[q] == old({_VALS}[q]), 0, len({_NAMES})))',
+             'parameter_gets_the_value_of_a_line_carrying_its_name':
+                 f'implies(c03c_file_readable({_F}), forall(lambda q: implies({_HAS}, exists(lambda j: c03c_line_name({_L}[j]) == {_NAMES}[q] '
+                 f'and {_VALS}[q] == c03c_line_value({_L}[j]), 0, len({_L}))), 0, len({_NAMES})))',
+             'parameter_absent_from_the_file_unchanged':
+                 f'implies(c03c_file_readable({_F}), forall(lambda q: implies(not {_HAS}, {_VALS}[q] == old({_VALS}[q])), 0, len({_NAMES})))',
+         },
+         invariants={1: {'clauses': {
+             'keys_are_the_names_read': f"forall(lambda x: (x in betas) == exists(lambda j: c03c_line_name({_L}[j]) == x, 0, _k), ty='str')",
+             'value_of_a_line_with_that_name': f"forall(lambda x: implies(x in betas, exists(lambda j: c03c_line_name({_L}[j]) == x and "
+                                               f"betas[x] == c03c_line_value({_L}[j]), 0, _k)), ty='str')"}}})
